@@ -302,15 +302,24 @@ class Source:
             if not impls:
                 raise SliceError(f'{self.path}: impl `{sel[5:]}` not found')
             return [src[s:e] for (s, e, _) in impls]
-        m = re.match(r'stmt\s+(.+)$', sel, re.S)
+        m = re.match(r'stmt(?:#(\d+)/(\d+))?\s+(.+)$', sel, re.S)
         if m:
             # one statement: from the start of the line where REGEX matches (in code, not in
-            # comments/strings) to the first `;` at nesting depth 0 after it
-            mm = re.search(m.group(1), code)
-            if not mm:
-                raise SliceError(f'{self.path}: statement /{m.group(1)}/ not found')
-            if len(re.findall(m.group(1), code)) != 1:
-                raise SliceError(f'{self.path}: statement /{m.group(1)}/ is ambiguous')
+            # comments/strings) to the first `;` at nesting depth 0 after it.  `stmt#i/n` picks
+            # the i-th (0-based) of exactly n matches; plain `stmt` requires a unique match.
+            rx = m.group(3)
+            allm = list(re.finditer(rx, code))
+            if not allm:
+                raise SliceError(f'{self.path}: statement /{rx}/ not found')
+            if m.group(1) is None:
+                if len(allm) != 1:
+                    raise SliceError(f'{self.path}: statement /{rx}/ is ambiguous')
+                mm = allm[0]
+            else:
+                i, n = int(m.group(1)), int(m.group(2))
+                if len(allm) != n:
+                    raise SliceError(f'{self.path}: statement /{rx}/ matches {len(allm)} times, expected {n}')
+                mm = allm[i]
             s0 = src.rfind('\n', 0, mm.start()) + 1
             depth = 0
             j = mm.start()
